@@ -222,7 +222,7 @@ MIN_OBLIGATIONS = {"quick": 25, "thorough": 30}
 TRUSTED = ["A-GRAPH, A-REAL, own ring engine (see C01)",
            "z3/cvc5 (QF_NRA) with stated range/monotonicity axioms for acos/asin/atan atoms and 15-digit bounds on pi"]
 ASSUMPTIONS = [
-    "lemma L-ROTVEC (machine-checked in Lean 4 / mathlib, lemmas/RotVec.lean + the sign half of L-SO3 in lemmas/SO3Cover.lean): a rotation with angle < pi has a unique rotation vector of norm < pi (representation independence = rt1 + principal); the surjectivity half of L-SO3 (every rotation matrix is R(q)) is stated only",
+    "lemma L-ROTVEC (machine-checked in Lean 4 / mathlib, lemmas/RotVec.lean + the sign half of L-SO3 in lemmas/SO3Cover.lean): a rotation with angle < pi has a unique rotation vector of norm < pi (representation independence = rt1 + principal); the surjectivity half of L-SO3 (every rotation matrix is R(q)) is machine-checked too (lemmas/SO3Surj.lean)",
     "lemma L-SO3: DCM inputs are R(q), |q| = 1",
     "closed-form cell of every series coefficient (rotation not within ~1e-3..3e-2 rad of 0; Taylor cell in C06); requires a margin from the pi singularity where x/sin(x) is undefined (divisors listed per path)",
     "MRP inputs for `principal` are canonical: |r| <= 1 (sort restriction, as in the property text)",
